@@ -14,7 +14,7 @@ CHECKS.update({
  "C02": dict(engine="E1 seq", cat="model_checking", ref="6 C02",
    technique="exhaustive enumeration of run timings (durations, strategy answers, overshoot) on a virtual monotonic clock, wall-clock jumps as deviations; spec monitor + differential steady-vs-jumping wall clock",
    text="For deadlines of 2-4 ticks every combination of attempt outcome, duration, strategy answer and sleeper overshoot up to max_attempts=3 is run on the real loops; the monitor checks on the owned monotonic timeline that no attempt begins after the deadline, no requested sleep exceeds the remaining time, total sleep <= deadline and late failures are not retried; wall-clock reads may jump by +/-1e9 s and the run must not change.",
-   note="tick resolution 0.125 s (library rounds to microseconds); sleeper overshoot >= 0; attempt_timeout_s modelled (owned executor / virtual loop); callbacks other than the operation and the sleeper take no time in this property"),
+   note="tick resolution 0.125 s (library rounds to microseconds); sleeper overshoot >= 0; attempt_timeout_s modelled (owned executor / virtual loop); one off-lattice deadline (0.3754 s, also through from_config); time may also pass inside a strategy object's record_failure(); other callbacks take no time in this property"),
  "C03": dict(engine="E1 seq", cat="model_checking", ref="6 C03",
    technique="exhaustive outcome sequences x deviation-bounded environment answers on the real retry loop; monitor recomputes the set of holding stop conditions from the observed history",
    text="Configuration lattice (caps, strategy tables, deadline, budget fill) x all outcome sequences x abort polls, handler decisions, durations and overshoot as bounded deviations; at every failed attempt the monitor derives which stop conditions hold and requires: no retry event/token/handler/sleep when one holds, a further attempt when none can hold, and a reported stop reason that is one of the holding conditions.",
@@ -22,7 +22,7 @@ CHECKS.update({
  "C04": dict(engine="E1 seq", cat="model_checking", ref="6 C04",
    technique="exhaustive mixed exception/result outcome sequences x deviation-bounded stop reasons on 8 call-style entry points; object-identity oracle",
    text="call() through Retry, Policy, RetryPolicy, context managers and async twins for every outcome sequence mixing exception and result failures and every stop reason; the returned object must be the successful attempt's own object, the raised exception the last attempt's own object with a traceback ending at its raise site, and RetryExhaustedError fields must describe the final attempt.",
-   note="aborted and cancellation-type endings judged by C13; result classifier also in one-shot mode; same exception object re-raised; None results; attribute-configured wrappers; attempt_timeout_s modelled"),
+   note="aborted and cancellation-type endings judged by C13; result classifier also in one-shot mode; same exception object re-raised; None results; awaitable objects as successful values; attribute-configured wrappers; attempt_timeout_s modelled"),
  "C05": dict(engine="E1 seq", cat="model_checking", ref="6 C05",
    technique="exhaustive enumeration of strategy tables, class sequences and strategy answers (NaN, inf, negative, beyond remaining) on the real loop; exact expected delay on a dyadic time lattice",
    text="For each strategy table (default / per-class / both, context or legacy signature) and every class sequence and strategy answer, the monitor checks that exactly the designated strategy is called once per granted retry with the true attempt number, the classifier's own Classification object, the previously applied delay, the remaining time and the cause, and that the sanitised, capped delay is what events, handler, before_sleep, sleeper and next_sleep_s carry.",
@@ -35,7 +35,7 @@ CHECKS.update({
  "C08": dict(engine="E1 seq + E3 coro", cat="fault_enumeration", ref="6 C08",
    technique="exhaustive single-fault (thorough: double-fault) injection at every callback invocation, every operation ending and every coroutine suspension point of real policy calls; spy breaker + functional probe oracle",
    text="For 12 entry paths and both admitting breaker states (closed, half-open probe) every way an admitted call can end is enumerated: each operation ending at each attempt, each callback raising at each invocation, and CancelledError/KeyboardInterrupt/SystemExit/close() at each await. After the call the spy breaker must have a record and, once recovery_timeout_s has elapsed, the next allow() must be admitted.",
-   note="max_attempts 2 (3 thorough await family); coroutines driven by send/throw/close and as Tasks on a virtual event loop (Task.cancel between any two iterations, with and without attempt_timeout_s); breaker re-pointed or attached by attribute assignment"),
+   note="max_attempts 2 (3 thorough await family); coroutines driven by send/throw/close and as Tasks on a virtual event loop (Task.cancel between any two iterations, with and without attempt_timeout_s); breaker re-pointed or attached by attribute assignment; the probe of a second trip/recovery cycle after the call must be admitted too"),
  "C09": dict(engine="E1 seq", cat="model_checking", ref="6 C09",
    technique="exhaustive outcome sequences x deviation-bounded stop reasons x call sequences on a logging subclass of the real CircuitBreaker; per-call record oracle",
    text="Policy/AsyncPolicy call/execute with and without retry: for every outcome sequence and stop reason and for sequences of calls sharing one breaker, each admitted call must make exactly one record after its last invocation: success iff a value was delivered, failure(K) with the final failure's class iff retries stopped on a failure or deferral, cancel iff aborted/cancelled; rejected calls none.",
@@ -43,7 +43,7 @@ CHECKS.update({
  "C13": dict(engine="E1 seq + E3 coro", cat="model_checking", ref="6 C13",
    technique="exhaustive abort-poll vectors x outcome sequences x cancellation-type exceptions from operation and sleeper; cancellation injected at every coroutine suspension point; structural trace oracle",
    text="Every first-True poll index, every attempt or sleep at which KeyboardInterrupt/SystemExit/CancelledError is raised, and every await point at which an async run is cancelled or closed: a poll must precede every attempt and every sleep, nothing is invoked after abort or cancellation, the same exception object leaves the call, the coroutine never suspends again.",
-   note="max_attempts 3 (4 thorough); 1 injection per run; async also as Tasks on a virtual event loop with attempt_timeout_s; abort also as an environment flag"),
+   note="max_attempts 3 (4 thorough); 1 injection per run; async also as Tasks on a virtual event loop with attempt_timeout_s; abort also as an environment flag or a falsy callable token; cancellation classes that also derive from Exception"),
  "C14": dict(engine="E1 seq", cat="model_checking", ref="6 C14",
    technique="exhaustive outcome sequences x deviation-bounded stop reasons with all three sinks attached; stream-shape and tag oracle; breaker events checked against the spy breaker's return values",
    text="Metric hook, log hook and timeline (captured or supplied) must receive the same sequence retry* terminal, the i-th retry with attempt=i and the applied delay, the terminal event matching the delivered stop reason and describing the final failure; every event returned by the breaker is emitted exactly once with attempt 0 and the breaker's state.",
